@@ -510,66 +510,99 @@ func c03writeBeforeAnnounce(c *Ctx) {
 func c03deletedPerMailbox(c *Ctx) {
 	P, R := c.P, c.R
 	R.Explain("R03.6", "\\Deleted is per mailbox (T-MUST): in (*fetch).handle, on the edge where the update cameFromDifferentMailbox every path to the snapshot write snap.setMessageFlags passes through newFlags.SetOnSelf(\\Deleted, <the snapshot's current \\Deleted>): whatever the other mailbox's update carries - including a replacement list - the local \\Deleted (and with it the expunge set of EXPUNGE/CLOSE) is preserved.")
-	f := c.fn("R03.6", "internal/state.(*fetch).handle")
-	if f == nil {
-		return
-	}
-	key := c.name(f) + "|deleted-restored-for-foreign-mailbox"
-	var guard *ssa.If
-	for _, b := range f.Blocks {
-		iff := engine.IfOf(b)
-		if iff == nil {
-			continue
-		}
-		if u, ok := iff.Cond.(*ssa.UnOp); ok {
-			if fa, ok := u.X.(*ssa.FieldAddr); ok && fieldOfAddr(fa).Name() == "cameFromDifferentMailbox" {
-				guard = iff
-			}
-		}
-	}
-	var write ssa.Instruction
-	cut := map[ssa.Instruction]bool{}
-	for _, cs := range engine.Calls(f) {
-		sc := cs.Common().StaticCallee()
-		if sc == nil {
-			continue
-		}
-		switch sc.Name() {
-		case "setMessageFlags":
-			write = cs.Instr
-		case "SetOnSelf":
-			args := cs.Common().Args
-			if len(args) != 3 {
+	// the function that distinguishes the foreign-mailbox case (fetch.handle or a helper of it)
+	n := 0
+	for _, f := range c.funcsInPkg("internal/state") {
+		var guard *ssa.If
+		for _, b := range f.Blocks {
+			iff := engine.IfOf(b)
+			if iff == nil {
 				continue
 			}
-			flag, isConst := engine.ConstString(args[1])
-			cur, isCall := args[2].(*ssa.Call)
-			if !isConst || !strings.EqualFold(flag, `\Deleted`) || !isCall || cur.Call.StaticCallee() == nil || !strings.HasPrefix(cur.Call.StaticCallee().Name(), "Contains") {
-				continue
+			if u, ok := iff.Cond.(*ssa.UnOp); ok {
+				if fa, ok := u.X.(*ssa.FieldAddr); ok && fieldOfAddr(fa).Name() == "cameFromDifferentMailbox" {
+					guard = iff
+				}
 			}
-			// the queried set is the snapshot's current flags (result of getMessageFlags), the flag is \deleted
-			fromSnap := engine.AnyBackward(cur.Call.Args[0], engine.FlowOpts{Loads: true}, func(x ssa.Value) bool {
+		}
+		if guard == nil {
+			continue
+		}
+		n++
+		key := c.name(f) + "|deleted-restored-for-foreign-mailbox"
+		// the snapshot's current flags: a getMessageFlags result, or a parameter that every caller feeds with one
+		isCurrent := func(v ssa.Value) bool {
+			return engine.AnyBackward(v, engine.FlowOpts{Loads: true}, func(x ssa.Value) bool {
 				if ex, ok := x.(*ssa.Extract); ok {
 					if call, ok := ex.Tuple.(*ssa.Call); ok && call.Call.StaticCallee() != nil && call.Call.StaticCallee().Name() == "getMessageFlags" {
 						return true
 					}
 				}
+				if p, ok := x.(*ssa.Parameter); ok && p.Parent() == f {
+					pi := engine.ParamIndex(f, p)
+					callers := P.CallersOf(f)
+					if len(callers) == 0 {
+						return false
+					}
+					for _, cs := range callers {
+						arg := engine.ArgForParam(cs.Common(), f, pi)
+						okc := arg != nil && engine.AnyBackward(arg, engine.FlowOpts{Loads: true}, func(y ssa.Value) bool {
+							if ex, ok := y.(*ssa.Extract); ok {
+								if call, ok := ex.Tuple.(*ssa.Call); ok && call.Call.StaticCallee() != nil && call.Call.StaticCallee().Name() == "getMessageFlags" {
+									return true
+								}
+							}
+							return false
+						})
+						if !okc {
+							return false
+						}
+					}
+					return true
+				}
 				return false
 			})
-			q, _ := engine.ConstString(cur.Call.Args[len(cur.Call.Args)-1])
-			if fromSnap && strings.EqualFold(q, `\Deleted`) {
-				cut[cs.Instr] = true
+		}
+		var sinks []ssa.Instruction
+		cut := map[ssa.Instruction]bool{}
+		for _, cs := range engine.Calls(f) {
+			sc := cs.Common().StaticCallee()
+			if sc == nil {
+				continue
+			}
+			switch sc.Name() {
+			case "setMessageFlags":
+				sinks = append(sinks, cs.Instr)
+			case "SetOnSelf":
+				args := cs.Common().Args
+				if len(args) != 3 {
+					continue
+				}
+				flag, isConst := engine.ConstString(args[1])
+				cur, isCall := args[2].(*ssa.Call)
+				if !isConst || !strings.EqualFold(flag, `\Deleted`) || !isCall || cur.Call.StaticCallee() == nil || !strings.HasPrefix(cur.Call.StaticCallee().Name(), "Contains") {
+					continue
+				}
+				q, _ := engine.ConstString(cur.Call.Args[len(cur.Call.Args)-1])
+				if isCurrent(cur.Call.Args[0]) && strings.EqualFold(q, `\Deleted`) {
+					cut[cs.Instr] = true
+				}
 			}
 		}
-	}
-	switch {
-	case guard == nil:
-		R.Fail("R03.6", key, P.Pos(f.Pos()), "no branch on cameFromDifferentMailbox: the foreign-mailbox case is not distinguished")
-	case write == nil:
-		R.Fail("R03.6", key, P.Pos(f.Pos()), "snapshot write setMessageFlags not found")
-	default:
-		bypass := engine.ReachesAvoidingFrom(guard.Block().Succs[0], 0, write, cut, nil)
-		R.Check(len(cut) > 0 && !bypass, "R03.6", key, P.Pos(guard.Pos()), "every foreign-mailbox path restores the local \\Deleted before the snapshot write",
+		if len(sinks) == 0 {
+			// the function computes the flags for its caller: its returns are the sinks
+			for _, r := range engine.Returns(f) {
+				sinks = append(sinks, r)
+			}
+		}
+		bypass := false
+		for _, sk := range sinks {
+			if engine.ReachesAvoidingFrom(guard.Block().Succs[0], 0, sk, cut, nil) {
+				bypass = true
+			}
+		}
+		R.Check(len(cut) > 0 && len(sinks) > 0 && !bypass, "R03.6", key, P.Pos(guard.Pos()), "every foreign-mailbox path restores the local \\Deleted before the snapshot write",
 			"with cameFromDifferentMailbox set, the snapshot write can be reached without SetOnSelf(\\Deleted, current local value): a STORE FLAGS in another mailbox clears this mailbox's \\Deleted in the snapshot and the next EXPUNGE/CLOSE skips the message")
 	}
+	R.Min("R03.6", "functions that distinguish the foreign-mailbox case", n, 1)
 }
